@@ -136,8 +136,23 @@ def install_main_env(ctx, eng, opts_holder):
             if repr(p) not in tied:
                 tied.add(repr(p))
                 st.pc.append(z3.Implies(fs_atom("is_dir", p), fs_atom("exists", p)))
-            return Outcome(BoolV(fs_atom(name, p)), events=[Event("Path::" + name, [p], None)])
+            outs = [Outcome(BoolV(fs_atom(name, p)), events=[Event("Path::" + name, [p], None)])]
+            # exists() answers `false` when the stat itself fails: explored once per path for the destination-side probes of the
+            # one-source shape (the identity checks that protect the source hang on them)
+            de = st.ghost.get("dest_expr")
+            on_dest = de is not None and (p == de or (p[0] == "join" and p[1] == de))
+            if name == "exists" and st.ghost.get("swallow_ok") and not st.ghost.get("stat_swallowed") and on_dest:
+                def eff(eng, s2, a2):
+                    s2.ghost["stat_swallowed"] = True
+                outs.append(Outcome(BoolV(False), events=[Event("Path::" + name, [p], "stat-failed")], effect=eff))
+            return outs
         return h
+
+    def s_try_exists_main(eng, st, callee, args, dty):
+        p = pexpr(eng, st, args[0])
+        return [Outcome(ok(BoolV(fs_atom("exists", p))), events=[Event("Path::try_exists", [p], None)]),
+                Outcome(err("std::io::Error"), events=[Event("Path::try_exists", [p], "err")])]
+    front(r"^(std::path::)?Path::try_exists$", s_try_exists_main)
     # identity of two paths (libfs::is_same_file): a fact per pair, like text equality
     def s_same(eng, st, callee, args, dty):
         a, b = pexpr(eng, st, args[0]), pexpr(eng, st, args[1])
@@ -283,6 +298,9 @@ def lemma_main(ctx):
         st = State()
         opts, vals, names = mk_opts(ctx, eng, st, npaths, with_td)
         holder[0] = opts
+        if npaths == 2 and not with_td:
+            st.ghost["swallow_ok"] = True
+            st.ghost["dest_expr"] = ("arg", names[-1])
         fn = fn_named(eng.funcs, "main")
         paths = eng.run(fn.name, [], st)
         total += len(paths)
@@ -310,6 +328,14 @@ def lemma_main(ctx):
             early = [e for e in ev if is_errev(e) and e.name in ("from_args", "init_logging", "expand")]
             # nothing with a side effect on the file system may precede the start of the copy: every callee of main has a
             # summary and none of them mutates; what must be shown is that the driver is started only for valid invocations
+            if p.ghost.get("stat_swallowed"):
+                # one stat of the destination failed and exists() said "no": the same-file checks must not be skipped on that
+                if spawn:
+                    ctx.fail("C03/C16: a failed stat of the destination is not taken for 'absent' by main's same-file checks (the copy must not start on it)",
+                             str(tn[:14]), key="stat-error-taken-for-absent")
+                else:
+                    ctx.passed("C03/C16: a failed stat of the destination is not taken for 'absent' by main's same-file checks (the copy must not start on it)")
+                continue
             if spawn:
                 started += 1
                 inv = _reference_invalid(p, names, with_td, vals, sources, dest_expr, fsm, texteq)
